@@ -742,8 +742,12 @@ def run_c20(ck, ctx):
                 jobs.append((si, delta, tuple(keys), toml, exp, data, ['check', 'all', 'its']))
         # chip count / order on outer-barrel lanes (stave mode)
         if any(l['kind'] != 'IB' for l in meta['links']):
-            for cnt, orders, exp in [(7, None, set()), (6, None, {'E75'}), (8, None, {'E75'}), (None, [[0, 1, 2, 3, 4, 5, 6], [8, 9, 10, 11, 12, 13, 14]], set()),
-                                     (None, [[1, 2, 3, 4, 5, 6, 7]], {'E75'}), (7, [[0, 1, 2, 3, 4, 5, 6], [8, 9, 10, 11, 12, 13, 14]], set())]:
+            # "observed" exists only if some outer-barrel lane actually carries data (every trigger of a short link may be a
+            # no-data trigger): without any outer-barrel frame there is nothing to compare with the configured value
+            ob_data = any((p.rdh['fee'] >> 12) >= 3 and any(0x40 <= w[9] <= 0x5E for w in p.words) for p in pk)
+            ck.count('c20_ob_stream_with_data' if ob_data else 'c20_ob_stream_without_data')
+            for cnt, orders, exp in [(c_, o_, e_ if ob_data else set()) for c_, o_, e_ in [(7, None, set()), (6, None, {'E75'}), (8, None, {'E75'}), (None, [[0, 1, 2, 3, 4, 5, 6], [8, 9, 10, 11, 12, 13, 14]], set()),
+                                     (None, [[1, 2, 3, 4, 5, 6, 7]], {'E75'}), (7, [[0, 1, 2, 3, 4, 5, 6], [8, 9, 10, 11, 12, 13, 14]], set())]]:
                 toml = (f'chip_count_ob = {cnt}\n' if cnt is not None else '') + (f'chip_orders_ob = {json.dumps(orders)}\n' if orders is not None else '')
                 jobs.append((si, 'chips', (cnt, str(orders)), toml, exp, data, ['check', 'all', 'its-stave']))
 
@@ -844,7 +848,11 @@ CHECKS = {
                           'FastPasta.C02.ddw0_fault_detected', 'FastPasta.C02.ddw0_needs_stop_bit', 'FastPasta.C02.ddw0_needs_page_gt_0',
                           'FastPasta.C02.ihw_needs_stop_0', 'FastPasta.C02.tdh_after_ihw_rules', 'FastPasta.C02.tdh_continuation_rule',
                           'FastPasta.C02.ihw_fault_after_conforming_prefix', 'FastPasta.C02.tdh_fault_after_conforming_prefix',
-                          'FastPasta.C02.ddw0_fault_after_conforming_prefix', 'FastPasta.C01.conforming_its_run_to']),
+                          'FastPasta.C02.ddw0_fault_after_conforming_prefix', 'FastPasta.C01.conforming_its_run_to',
+                          'FastPasta.C02.status_fault_at_any_depth', 'FastPasta.C02.data_fault_at_any_depth', 'FastPasta.C02.unknown_id_reported_anywhere',
+                          'FastPasta.C02.unknown_id_never_silent', 'FastPasta.C02.quiet_class', 'FastPasta.C02.quiet_status_class', 'FastPasta.C02.quiet_data_class',
+                          'FastPasta.C02.quiet_governing_ihw', 'FastPasta.C02.preData_codes', 'FastPasta.C02.status_fault_detected',
+                          'FastPasta.C02.checkWord_ihw', 'FastPasta.C02.same_shape_same_class']),
     'C06': dict(modules=['FastPasta.Props.C06'], run=run_c06, needs_harness=True, corr='link_*',
                 theorems=['FastPasta.C06.dispatch_partition', 'FastPasta.C06.interleave_invariant', 'FastPasta.C06.other_links_irrelevant',
                           'FastPasta.C06.step_inv', 'FastPasta.C06.run_inv', 'FastPasta.C06.upd_other', 'FastPasta.C06.upd_own']),
